@@ -330,8 +330,9 @@ func (tb *LTable) RawGetString(key string) LValue {
 // ForEach iterates over this table of elements, yielding each in turn to a given function.
 func (tb *LTable) ForEach(cb func(LValue, LValue)) {
 	if tb.array != nil {
-		for i, v := range tb.array {
-			if v != LNil {
+		// the callback may shorten the array part (Remove): the length is read each time round
+		for i := 0; i < len(tb.array); i++ {
+			if v := tb.array[i]; v != LNil && v != nil {
 				cb(LNumber(i+1), v)
 			}
 		}
